@@ -170,22 +170,25 @@ abbrev Path := List Nat
 inductive Pan | inp | out | uiIn | uiOut
   deriving DecidableEq, Repr
 
-def St := Path → Pan → Nat → Val
+/-- a structure (not a bare function) so that the compiled model builds each state once instead of
+re-running the update at every read -/
+structure St where
+  fn : Path → Pan → Nat → Val
 
 namespace St
-def get (σ : St) (p : Pan) (k : Nat) : Val := σ [] p k
+def get (σ : St) (p : Pan) (k : Nat) : Val := σ.fn [] p k
 
 def set (σ : St) (p : Pan) (k : Nat) (v : Val) : St :=
-  fun q p' k' => if q = [] ∧ p' = p ∧ k' = k then v else σ q p' k'
+  ⟨fun q p' k' => if q = [] ∧ p' = p ∧ k' = k then v else σ.fn q p' k'⟩
 
 /-- the state of child `j` -/
-def sub (σ : St) (j : Nat) : St := fun q => σ (j :: q)
+def sub (σ : St) (j : Nat) : St := ⟨fun q => σ.fn (j :: q)⟩
 
 /-- replace the state of child `j` -/
 def graft (σ : St) (j : Nat) (τ : St) : St :=
-  fun q => match q with
-    | [] => σ []
-    | j' :: r => if j' = j then τ r else σ (j' :: r)
+  ⟨fun q => match q with
+    | [] => σ.fn []
+    | j' :: r => if j' = j then τ.fn r else σ.fn (j' :: r)⟩
 
 def atPath (σ : St) : Path → St
   | [] => σ
@@ -231,14 +234,14 @@ def purgePush (body : List Node) (rets : List Ret) : Nat → Nat → St → St
 mutual
 /-- the state right after `Cls()` (no keyword arguments) -/
 def build : Node → St
-  | .leaf _ srcs => fun q p i =>
-      if q = [] ∧ p = .inp ∧ i < srcs.length then .c 0 else .nd
+  | .leaf _ srcs => ⟨fun q p i =>
+      if q = [] ∧ p = .inp ∧ i < srcs.length then .c 0 else .nd⟩
   | .mac args body rets _ _ =>
-      let σ0 : St := fun q p i =>
+      let σ0 : St := ⟨fun q p i =>
         match q, p with
         | [], .inp => if i < args.length then (args.getD i ⟨.nd, 0⟩).dflt else .nd
         | [], .uiIn => if i < args.length then (args.getD i ⟨.nd, 0⟩).dflt else .nd
-        | _, _ => .nd
+        | _, _ => .nd⟩
       purgePush body rets args.length 0 (buildBody body 0 σ0)
 def buildBody : List Node → Nat → St → St
   | [], _, σ => σ
